@@ -179,10 +179,10 @@ class FsWorld:
                 if pr.obs:
                     for i in range(len(pr.evq)):
                         st.append(["deliver", p, i])
-            for i, (name, _) in enumerate(pr.watchers):
+            for name in sorted(set(n for n, _ in pr.watchers)):
                 j = self.jobs[int(name[1:-len(".token")])]
                 if j["phase"] in (IDLE, ENDED, DONE):
-                    st.append(["fire", p, i])
+                    st.append(["fire", p, int(name[1:-len(".token")])])
         for i, j in enumerate(self.jobs):
             p = j["p"]
             pr = self.procs[p]
@@ -244,12 +244,9 @@ class FsWorld:
                 pr.locks[i] = locks
                 f = self.tokdir / dep.name
                 j["saved"] = f.read_bytes()
-                if self.sc.get("window", True):
-                    with f.open("wb"):
-                        pass  # what the directory looks like between open() and write()
-                    j["phase"] = CREATING
-                else:
-                    j["phase"] = CREATING
+                with f.open("wb"):
+                    pass  # what the directory looks like between open() and write()
+                j["phase"] = CREATING
             except LockError:
                 # Scheduler.aio_start l.698-705
                 dep.check()
@@ -262,11 +259,7 @@ class FsWorld:
             i = op[1]
             j = self.jobs[i]
             f = self.tokdir / ("j%d.token" % i)
-            if self.sc.get("window", True):
-                f.write_bytes(j["saved"])
-            else:
-                before = dict(before)
-                before[f.name] = 0
+            f.write_bytes(j["saved"])
             j["phase"] = HOLDING
         elif k == "launch":
             self.jobs[op[1]]["phase"] = RUNNING
@@ -298,9 +291,11 @@ class FsWorld:
                 pr.obs = False
                 pr.evq = []
         elif k == "fire":
-            p, idx = op[1], op[2]
+            p = op[1]
             pr = self.procs[p]
             Ctx.proc = pr
+            # watcher threads of one process for the same file are indistinguishable: take the oldest
+            idx = [n for n, _ in pr.watchers].index("j%d.token" % op[2])
             name, run = pr.watchers.pop(idx)
             try:
                 run()
@@ -309,12 +304,7 @@ class FsWorld:
         else:
             raise ValueError(k)
         Ctx.proc = None
-        if k == "acquire" and res == "ok" and not self.sc.get("window", True):
-            # no window: the file appears written; created now, modified at `write`
-            after = self.listing()
-            self.emit(before, after)
-        else:
-            self.emit(before, self.listing())
+        self.emit(before, self.listing())
         return res
 
     # ---- observables
@@ -332,7 +322,7 @@ class FsWorld:
                 continue
             tk = pr.token
             procs.append(dict(avail=int(tk.available), cache=sorted([n, int(tf.count)] for n, tf in tk.cache.items()),
-                              obs=pr.obs, evq=[list(e) for e in pr.evq], watch=[n for n, _ in pr.watchers]))
+                              obs=pr.obs, evq=[list(e) for e in pr.evq], watch=sorted(n for n, _ in pr.watchers)))
         jobs = []
         for i, j in enumerate(self.jobs):
             pr = self.procs[j["p"]]
